@@ -595,6 +595,18 @@ class PointsTo:
                 for so in self._copy_sources(o):
                     if so not in out or path not in out[so]:
                         work.append((so, path))
+        # lazily created children of decoded structures
+        for c in list(self.objs.values()):
+            if c.kind != "loadedchild" or c in out:
+                continue
+            keys = []
+            p = c
+            while p.kind == "loadedchild":
+                keys.append(p.src[1])
+                p = p.src[0]
+            if p in out:
+                keys.reverse()
+                out[c] = {rp + tuple(keys) for rp in out[p]}
         return out
 
     def insertions_into(self, objs):
